@@ -7,7 +7,6 @@ import (
 	"sort"
 	"strings"
 	"sync"
-	"sync/atomic"
 	"testing"
 	"time"
 
@@ -222,7 +221,7 @@ func c10RunConc(t rt.TB, c c10Conc) {
 			do(0, o)
 		}
 		var wg sync.WaitGroup
-		var ready int32
+		bar := rt.NewBarrier(len(c.Threads))
 		start := make(chan struct{})
 		for ti, th := range c.Threads {
 			wg.Add(1)
@@ -231,9 +230,7 @@ func c10RunConc(t rt.TB, c c10Conc) {
 				<-start
 				// spin barrier: the threads leave within nanoseconds of each other (the
 				// windows of interest are a few instructions wide)
-				atomic.AddInt32(&ready, 1)
-				for spins := 0; atomic.LoadInt32(&ready) < int32(len(c.Threads)) && spins < 2000000; spins++ {
-				}
+				bar.Wait()
 				for _, o := range th {
 					do(ti+1, o)
 				}
